@@ -1144,6 +1144,7 @@ class PlainQuantity(Generic[MagnitudeT], PrettyIPython, SharedRegistryObject):
 
     @check_implemented
     def __ipow__(self, other):
+        self._check(other)
         if not is_duck_array_type(type(self._magnitude)):
             return self.__pow__(other)
 
@@ -1208,6 +1209,7 @@ class PlainQuantity(Generic[MagnitudeT], PrettyIPython, SharedRegistryObject):
 
     @check_implemented
     def __pow__(self, other) -> PlainQuantity[MagnitudeT]:
+        self._check(other)
         try:
             _to_magnitude(other, self.force_ndarray, self.force_ndarray_like)
         except PintTypeError:
